@@ -746,7 +746,6 @@ send_response:
 		response.connection = (intptr_t) c;
 		response.connection_type = s->type;
 		response.max_msg_size = c->request.max_msg_size;
-		s->stats.active_connections++;
 	}
 
 	res2 = qb_ipc_us_send(&c->setup, &response, response.hdr.size);
@@ -755,6 +754,7 @@ send_response:
 	}
 
 	if (res == 0) {
+		s->stats.active_connections++;
 		qb_ipcs_connection_ref(c);
 		/*
 		 * From now on the application knows the connection: if it
